@@ -172,7 +172,7 @@ def run(tier):
                        {"history": exportchecks.describe_steps(r_["steps"]), "other": b.get("other"), "files": r_["blob_texts"]})
     # the same calls in another order: every permutation of a multiset of calls (entry point x type x spelling of
     # the directory) must leave the same directory (Trace_Confluence.tla with key = the multiset)
-    hres = exportchecks.run_slice("hist", tier, ostats)
+    hres = exportchecks.run_slice("hist", tier, ostats) + ores
     perm = sorted(({"key": json.dumps(sorted(exportchecks.describe_steps([s_]) for s_ in r_["steps"])), "sha": r_["sha"], "hid": n_} for n_, r_ in enumerate(hres)),
                   key=lambda x: (x["key"], x["sha"]))
     cpath = os.path.join(vlib.TMP, "c13-perm.ndjson")
